@@ -178,6 +178,25 @@ fn sweep(ctx: &mut Ctx) {
                     *x = v;
                 }
             }
+            // operand affinity: graph instructions get real node ids of the top graph now and then
+            if name.starts_with("GRAPH.") && k % 2 == 1 && st.graph_stack.size() > 0 {
+                let ids: Vec<i32> = st.graph_stack.get(0).unwrap().nodes.keys().map(|x| *x as i32).collect();
+                if !ids.is_empty() {
+                    for pos in 0..st.int_stack.size().min(3) {
+                        if r.chance(2, 3) {
+                            let v = *r.pick(&ids);
+                            if let Some(x) = st.int_stack.get_mut(pos) {
+                                *x = v;
+                            }
+                        }
+                    }
+                    if r.bool() {
+                        if let Some(v) = st.int_vector_stack.get_mut(0) {
+                            v.values = (0..r.below(4)).map(|_| *r.pick(&ids)).collect();
+                        }
+                    }
+                }
+            }
             let pre = Snap::of(&st);
             ctx.rec.case_marker(case, &format!("sweep {} :: {}", name, pre.summary()));
             let obs = step_named(&mut st, &mut is, &cache, name);
